@@ -18,8 +18,9 @@ EXTRACT = ['configsvc']
 LEAN_TARGETS = ['DeepModel.Props.C12']
 AUDIT = 'DeepModel/Audit/C12.lean'
 DRIVER = 'DeepModel/Driver/C12.lean'
-BUDGET = {'quick': 800, 'thorough': 8000}
-RULE = ('(ts_nanos of the answers is arbitrary, not monotone) first EVERY lock-respecting interleaving of two apply tasks over their four regions (up to the lock / lock + '
+BUDGET = {'quick': 950, 'thorough': 8000}
+RULE = ('[line-granular preemption, oracle only: 6 victim/intruder pairs (poll answer vs register/unregister and the '
+        'reverse) x the victim parked before its k-th line in tracepoint_config.py, k = 1..24] (ts_nanos of the answers is arbitrary, not monotone) first EVERY lock-respecting interleaving of two apply tasks over their four regions (up to the lock / lock + '
         'read / listener argument / install) with the second change (update or registration) at every point: 2 x 21 '
         'schedules; then histories of 1..12 ops (thorough ..30): poll answers (UPDATE with 0..3 tracepoints of which some cannot be '
         'interpreted; NO_CHANGE carrying stray data; answer of a type outside the enum; response whose conversion '
@@ -163,6 +164,8 @@ def two_task_schedules():
 def gen(rng, tier):
     for c in two_task_schedules():
         yield c
+    for c in svcref.preempt_cases():
+        yield c
     k = 0
     while True:
         k += 1
@@ -233,6 +236,10 @@ def corpus():
                                 {'op': 'pollFail', 'base': False, 'how': 'garbage'},
                                 {'op': 'taskInstall', 'k': 0}, {'op': 'taskRead', 'k': 0}, {'op': 'taskCall', 'k': 0},
                                 {'op': 'unregister', 'handle': 0}, {'op': 'taskInstall', 'k': 0}, ap(0)]},
+        # an UPDATE with an empty configuration after a non-empty one: nothing from the service stays installed
+        {'kind': 'seq', 'ops': [_upd('h1', 1, ('a.py', 1, 's1')), ap(0),
+                                {'op': 'register', 'path': 'b.py', 'line': 10, 'tag': 'w1', 'args': {}}, ap(0),
+                                _upd('h2', 2), ap(0)]},
         # D14: one tracepoint of the response cannot be interpreted
         {'kind': 'seq', 'ops': [{'op': 'poll', 'nc': False, 'rt': 1, 'ts': 1, 'hash': 'h1', 'tps': [
             {'path': 'a.py', 'line': 1, 'tag': 's1', 'args': {}},
@@ -308,6 +315,8 @@ def run_timer(case):
 def run_impl(case):
     if case['kind'] == 'timer':
         return run_timer(case)
+    if case['kind'] == 'preempt':
+        return svcbench.run_preempt(case)
     return svcbench.run_ops(case['ops'])
 
 
@@ -340,7 +349,7 @@ def oracle_seq(case, obs):
             v.append(f'{what}: raised {t.get("raised") or t.get("task_raised")}')
         ref.apply(op)
         if inert:
-            changed = [key for key in STATE_KEYS if t[key] != prev[key]]
+            changed = [key for key in STATE_KEYS if t[key] is not None and prev[key] is not None and t[key] != prev[key]]
             if changed:
                 kind = 'NO_CHANGE answer' if (k == 'poll' and op.get('rt', 1) == 0) else \
                     'answer of unknown type %s' % op.get('rt') if (k == 'poll' and op.get('rt', 1) != 1) else \
@@ -384,6 +393,8 @@ def oracle_timer(case, obs):
 
 
 def oracle(case, obs):
+    if case['kind'] == 'preempt':
+        return svcref.preempt_oracle(case, obs)
     return oracle_timer(case, obs) if case['kind'] == 'timer' else oracle_seq(case, obs)
 
 
@@ -398,6 +409,8 @@ def timer_model_ops(case):
 
 
 def model_request(case, obs):
+    if case['kind'] == 'preempt':
+        return None          # the model has no regions inside update_new_config / add_custom / remove_custom
     if case['kind'] == 'timer':
         return {'ops': timer_model_ops(case)}
     return {'ops': svcref.driver_ops(case['ops'])}
@@ -446,11 +459,14 @@ def _fail_after_good(case):
 
 
 def label(case, obs):
+    if case['kind'] == 'preempt':
+        return 'preempt/%s-vs-%s/%s' % (case['victim']['op'], case['intruder']['op'],
+                                        'parked' if obs.get('reached') else 'beyond-last-line')
     if case['kind'] == 'timer':
         return 'timer/' + ('text' if isinstance(case['interval'], str) else 'number')
     ks = [o['op'] for o in case['ops']]
     t = obs['trace']
-    parts = ['reordered' if _reordered(case) else 'in-order']
+    parts = (['degraded'] if obs.get('degraded') else []) + ['reordered' if _reordered(case) else 'in-order']
     if any(o['op'] == 'taskRead' and not r.get('moved') for o, r in zip(case['ops'], t)):
         parts.append('lock-contended')
     if _fail_after_good(case):
@@ -462,12 +478,16 @@ def label(case, obs):
 
 
 def nontrivial(case, obs):
+    if case['kind'] == 'preempt':
+        return bool(obs.get('reached'))
     if case['kind'] == 'timer':
         return True
     return _reordered(case) or _fail_after_good(case)
 
 
 def shrink(case):
+    if case['kind'] == 'preempt':
+        return
     if case['kind'] == 'timer':
         sc = case['script']
         for i in range(len(sc)):
